@@ -193,16 +193,61 @@ func refApplies(naive bool, rule config.Rule, cmd string, e discovery.Entry) boo
 	return false
 }
 
+// c09FocusBlock renders a loose sub-block that is mostly about command and state: the combinations in which the
+// command-dependent state default matters (a match block that accepts unmodified rules next to an ignore block
+// without `state`, and the reverse) are rare under the uniform generator.
+func c09FocusBlock(r *hx.Run, kw string) string {
+	rr := r.Rng
+	var sb strings.Builder
+	fmt.Fprintf(&sb, "  %s {\n", kw)
+	n := 0
+	add := func(s string) { sb.WriteString("    " + s + "\n"); n++ }
+	if rr.Intn(3) == 0 {
+		add(fmt.Sprintf("command = %q", hx.Pick(rr, []string{"lint", "ci", "watch"})))
+	}
+	pState := 2
+	if kw == "ignore" {
+		pState = 4
+	}
+	if rr.Intn(pState) == 0 {
+		add("state = " + hx.Pick(rr, []string{`["any"]`, `["unmodified"]`, `["unmodified", "added"]`, `["added"]`, `["removed", "modified"]`, `["renamed", "unmodified"]`}))
+	}
+	switch rr.Intn(6) {
+	case 0:
+		add(fmt.Sprintf("kind = %q", hx.Pick(rr, []string{"alerting", "recording"})))
+	case 1:
+		add(`path = "rules/.*"`)
+	case 2:
+		add(`name = ".+"`)
+	case 3, 4:
+		// a key pattern that covers several labels of a rule (rule labels job/instance/env/cluster/severity, group
+		// labels team/job) with a value only some of them carry: "any label" versus "the first one"
+		add(fmt.Sprintf("label %q {\n      value = %q\n    }", hx.Pick(rr, []string{".*", "job|env|cluster", "team|job|severity", "instance|severity|env", ".+e.*"}),
+			hx.Pick(rr, []string{"a", "b", "critical", "grp", "infra", "a|b"})))
+	}
+	if n == 0 {
+		add(`path = ".*"`)
+	}
+	sb.WriteString("  }\n")
+	return sb.String()
+}
+
 func c09Config(r *hx.Run) string {
 	rr := r.Rng
 	var sb strings.Builder
+	focus := rr.Intn(2) == 0
+	r.Count("config_state_focus=" + fmt.Sprint(focus))
 	for i, n := 0, 1+rr.Intn(3); i < n; i++ {
 		sb.WriteString("rule {\n")
-		for j, m := 0, rr.Intn(3); j < m; j++ {
-			sb.WriteString(enMatchBlock(r, "match"))
+		block := enMatchBlock
+		if focus {
+			block = c09FocusBlock
 		}
 		for j, m := 0, rr.Intn(3); j < m; j++ {
-			sb.WriteString(enMatchBlock(r, "ignore"))
+			sb.WriteString(block(r, "match"))
+		}
+		for j, m := 0, rr.Intn(3); j < m; j++ {
+			sb.WriteString(block(r, "ignore"))
 		}
 		fmt.Fprintf(&sb, "  name \"marker%dzz\" {\n    severity = \"info\"\n  }\n}\n", i)
 	}
